@@ -349,13 +349,37 @@ func PickSyscalls(a *arch.Info, nsys int, mode string, rng *rand.Rand) ([]SysPai
 	}
 	sort.Ints(nums)
 	var out []SysPair
+	unambiguous := func(n int) bool { return a.SyscallNames[a.SyscallNumbers[n]] == n }
 	if mode == "ident" {
 		for i := 0; i < nsys; i++ {
 			name, ok := a.SyscallNumbers[i]
-			if !ok {
-				return nil, fmt.Errorf("%s has no syscall %d", a.Name, i)
+			if !ok || !unambiguous(i) {
+				out = nil
+				break
 			}
 			out = append(out, SysPair{name, i})
+		}
+		if out != nil {
+			return out, nil
+		}
+		mode = "sorted"
+	}
+	if nsys > 16 || mode == "sorted" {
+		// real-scale scopes: the first nsys numbers in order, or a seeded injective choice in shuffled order
+		var cand []int
+		for _, n := range nums {
+			if unambiguous(n) {
+				cand = append(cand, n)
+			}
+		}
+		if len(cand) < nsys {
+			return nil, fmt.Errorf("%s has only %d usable syscalls, %d needed", a.Name, len(cand), nsys)
+		}
+		if mode != "sorted" {
+			rng.Shuffle(len(cand), func(i, j int) { cand[i], cand[j] = cand[j], cand[i] })
+		}
+		for _, n := range cand[:nsys] {
+			out = append(out, SysPair{a.SyscallNumbers[n], n})
 		}
 		return out, nil
 	}
